@@ -566,6 +566,15 @@ pub fn structural(prop: &'static str, cfg: &Config) -> PropRun {
             |local, input, _| visit_text(prop, local, input),
         ));
     }
+    if matches!(prop, "C07" | "C06" | "C01") && cfg.only_spaces.is_empty() {
+        let bodies = hex_bodies();
+        report.absorb(ex.run_list(
+            "hex bodies of 3..6 characters over {5 a F g , blank +} x quote kinds x suffix cases",
+            bodies.len() as u64,
+            |i, buf| buf.push_str(&bodies[i as usize]),
+            |local, input, _| visit_text(prop, local, input),
+        ));
+    }
     if matches!(prop, "C06" | "C01" | "C02" | "C03") && cfg.only_spaces.is_empty() {
         // keywords with one letter replaced by a non-ASCII character that Unicode case mapping
         // (but not ASCII case folding) turns into that letter
@@ -703,6 +712,32 @@ pub fn c16_check(src: &str, local: Option<&mut Local>) -> Option<Vec<String>> {
     Some(out)
 }
 
+/// hex string literals whose body has 3..6 characters of a small alphabet (commas at every
+/// position relative to the digit pairs, blanks, an invalid digit, a sign), both quote kinds
+pub fn hex_bodies() -> Vec<String> {
+    const A: &[char] = &['5', 'a', 'F', 'g', ',', ' ', '+'];
+    let mut out = Vec::new();
+    let mut level: Vec<String> = vec![String::new()];
+    for n in 1..=6 {
+        let mut next = Vec::with_capacity(level.len() * A.len());
+        for w in &level {
+            for c in A {
+                let mut x = w.clone();
+                x.push(*c);
+                next.push(x);
+            }
+        }
+        if n >= 3 {
+            for w in &next {
+                out.push(format!("'{w}'x"));
+                out.push(format!("\"{w}\"X"));
+            }
+        }
+        level = next;
+    }
+    out
+}
+
 /// all 2^n case variants of a keyword inside a host; `host` contains `{}`
 fn c16_keyword_runs(cfg: &Config, ex: &Explorer) -> Report {
     let mut words: Vec<(String, String)> = Vec::new(); // (host, word)
@@ -813,6 +848,30 @@ fn c16_keyword_runs(cfg: &Config, ex: &Explorer) -> Report {
 
 /// A is a closed prefix: initial configuration at end of input and the last token before EOF is
 /// a consumed `;` or a complete comment.
+thread_local! {
+    static RELAXED: std::cell::Cell<bool> = const { std::cell::Cell::new(false) };
+}
+
+/// The premise of C15 read literally: initial configuration and the last token is a consumed `;`
+/// or a complete statement-level comment - whatever the last default-channel token is. Such a
+/// prefix composes with every continuation whose first token does not look behind (see
+/// `look_behind_sensitive`).
+pub fn closed_prefix_literal(src: &str, r: &LexResult) -> bool {
+    RELAXED.with(|c| c.set(true));
+    let v = closed_prefix(src, r);
+    RELAXED.with(|c| c.set(false));
+    v
+}
+
+/// B starts (after hidden tokens) with a token whose classification looks behind at the last
+/// default-channel token: a macro statement keyword or label (MacroSep placement) or in-stream
+/// data (must follow a `;`)
+fn look_behind_sensitive(cb: &Canon) -> bool {
+    let first = cb.toks.iter().find(|t| t.ch == Ch::DEFAULT && t.ty != T::EOF).map(|t| t.ty);
+    let Some(t) = first else { return false };
+    matches!(t, T::MacroLabel | T::MacroSep | T::DatalinesStart | T::MacroIdentifier) || spaces::is_macro_stat_kw(t)
+}
+
 pub fn closed_prefix(src: &str, r: &LexResult) -> bool {
     if !is_closed(r) || src.is_empty() {
         return false;
@@ -832,7 +891,7 @@ pub fn closed_prefix(src: &str, r: &LexResult) -> bool {
         .rev()
         .find(|(_, t)| t.channel() == Ch::DEFAULT)
         .map(|(_, t)| t.token_type());
-    if !matches!(last_default, None | Some(T::SEMI)) {
+    if !matches!(last_default, None | Some(T::SEMI)) && !RELAXED.with(std::cell::Cell::get) {
         return false;
     }
     match last.token_type() {
@@ -933,10 +992,14 @@ pub fn c15_check(a_src: &str, b_src: &str) -> Option<Vec<String>> {
         return Some(vec![]);
     }
     let (ra, ca) = lex_canon(a_src)?;
-    if !closed_prefix(a_src, &ra) {
+    let strict = closed_prefix(a_src, &ra);
+    if !strict && !closed_prefix_literal(a_src, &ra) {
         return Some(vec![]);
     }
     let (_, cb) = lex_canon(b_src)?;
+    if !strict && look_behind_sensitive(&cb) {
+        return Some(vec![]);
+    }
     let ab = format!("{a_src}{b_src}");
     let (_, cab) = lex_canon(&ab)?;
     let exp = compose(a_src, &ca, &cb);
@@ -954,6 +1017,53 @@ pub const C15_ATOMS: &[&str] = &[
 
 /// one continuation per literal / payload-carrying scanner (each also after `x=`): what a closed
 /// prefix must not be able to influence
+/// continuations whose first construct looks behind (labels, '*' statements, stray block ends)
+/// or repeats the kind of error a prefix may have ended with
+pub const C15_EXTRA_B: &[&str] = &[
+    "%l:",
+    "%l: x=1;",
+    " %l:%put a;",
+    "%l :",
+    "%l:%l2:",
+    "/*c*/%l:",
+    "%let b=%eval(1 %then 2);",
+    "x=%eval(1 %then 2);",
+    "x=\"%str(a %then\";",
+    "%put %sysfunc(f(1 %then 2));",
+    "%do; * note; %end;",
+    "%macro n; * c; %mend;",
+    "*';",
+    "* it's;",
+    "%else %put n; *';",
+    "%end;",
+    "%mend;",
+    "%then",
+    "%to 3;",
+    ")",
+    "b='42'x;",
+    "=1;",
+    "datalines;\n1\n;",
+    "%if 1 %then %do; * c; %end; %else %do; * d; %end;",
+];
+
+/// statement bodies in which a diagnostic is reported; closed by each closer in `c15_run`
+pub const C15_ERROR_BODIES: &[&str] = &[
+    "%eval(1 %then",
+    "%let a=%eval(1+)",
+    "%sysfunc(f(1 %then",
+    "%m(a=%then",
+    "x='41zz'x",
+    "%let a 1",
+    "%scan(a %then",
+    "x=\"%str(a %then\"",
+    "%put %substr(a %then",
+    "%if 1 %then %do; %end; %else %else",
+    "%do i=1 %to %then",
+    "x=0ffz",
+    "%let a=%sysevalf(1e- %then",
+    "%if %eval(1 %then %then",
+];
+
 pub const C15_LITERAL_B: &[&str] = &[
     "\"41\"x", "'41'x", "\"4g\"x", "'4g'x", "\"a\"n", "'a b'n", "'01jan2020'd", "\"01jan2020\"d", "'a'dt", "\"a\"dt",
     "'12:00't", "\"12:00\"t", "'1'b", "\"1\"b", "\"a\"\"b\"", "'a''b'", "\"&v\"", "\"&v\"\"a\"x", "\"%m()41\"x", "\"a&v.b\"d",
@@ -1028,6 +1138,7 @@ fn c15_run(cfg: &Config) -> PropRun {
     let n = if q { 3 } else { 4 };
     let a_space = Space::new("C15.A", C15_ATOMS, n);
     let closed = std::sync::Mutex::new(Vec::<String>::new());
+    let literal = std::sync::Mutex::new(Vec::<String>::new());
     let mut report = ex.run(
         &[a_space],
         |local: &mut Local, node: &Node| {
@@ -1038,6 +1149,9 @@ fn c15_run(cfg: &Config) -> PropRun {
                     if c {
                         closed.lock().unwrap().push(node.input.to_string());
                         local.count("closed_prefixes_found");
+                    } else if closed_prefix_literal(node.input, &r) {
+                        literal.lock().unwrap().push(node.input.to_string());
+                        local.count("literal_only_closed_prefixes_found");
                     }
                     Visit { cfg: Some(cfg_hash(&r)), nontrivial: false }
                 }
@@ -1071,8 +1185,26 @@ fn c15_run(cfg: &Config) -> PropRun {
             }
         }
     }
+    let mut lit_list: Vec<String> = Vec::new();
+    // every error body closed by every kind of statement closer (a ';' token, a comment statement
+    // that swallows its ';', a macro comment, a trailing block comment); kept when closed here
+    for body in C15_ERROR_BODIES {
+        for closer in [";", " * c;", " %* c;", ";/*c*/", "; * c;", ";\n%* c;", ";\n"] {
+            let p = format!("{body}{closer}");
+            if let Outcome::Ok(r) = run_lexer(&p) {
+                if closed_prefix(&p, &r) {
+                    a_list.push(p);
+                } else if closed_prefix_literal(&p, &r) {
+                    lit_list.push(p);
+                }
+            }
+        }
+    }
     a_list.sort();
     a_list.dedup();
+    lit_list.extend(literal.into_inner().unwrap());
+    lit_list.sort();
+    lit_list.dedup();
     // 2. all B of <= m atoms
     let m = if q { 2 } else { 3 };
     let mut b_list: Vec<String> = vec![String::new()];
@@ -1088,6 +1220,9 @@ fn c15_run(cfg: &Config) -> PropRun {
             b_list.extend(next.iter().cloned());
             level = next;
         }
+    }
+    for l in C15_EXTRA_B {
+        b_list.push((*l).to_string());
     }
     for l in C15_LITERAL_B {
         b_list.push((*l).to_string());
@@ -1151,6 +1286,43 @@ fn c15_run(cfg: &Config) -> PropRun {
         },
     );
     report.absorb(pairs);
+    // 2b. prefixes that are closed in the literal sense of the property only (initial
+    // configuration, ends in a statement-level comment, but the last default-channel token is
+    // not a ';'), with the continuations whose first token does not look behind
+    let lit_canon: Vec<Option<Canon>> = lit_list.iter().map(|a| lex_canon(a).map(|x| x.1)).collect();
+    let b_ins: Vec<usize> = (0..b_list.len()).filter(|i| b_canon[*i].as_ref().is_some_and(|c| !look_behind_sensitive(c))).collect();
+    let nbi = b_ins.len() as u64;
+    let pairs_lit = ex.run_list(
+        "C15.pairs(A closed in the literal sense only, B not look-behind sensitive)",
+        lit_list.len() as u64 * nbi,
+        |i, buf| {
+            buf.push_str(&lit_list[(i / nbi) as usize]);
+            buf.push_str(&b_list[b_ins[(i % nbi) as usize]]);
+        },
+        |local, input, i| {
+            let ai = (i / nbi) as usize;
+            let bi = b_ins[(i % nbi) as usize];
+            local.lexer_runs += 1;
+            let (Some(ca), Some(cb)) = (&lit_canon[ai], &b_canon[bi]) else {
+                local.unobservable += 1;
+                return Visit { cfg: None, nontrivial: false };
+            };
+            match lex_canon(input) {
+                None => {
+                    local.unobservable += 1;
+                    Visit { cfg: None, nontrivial: false }
+                }
+                Some((r, cab)) => {
+                    let exp = compose(&lit_list[ai], ca, cb);
+                    if let Some(d) = exp.diff(&cab) {
+                        local.finding(format!("C15 compose.{d}"), &format!("{}\u{1f}{}", lit_list[ai], b_list[bi]));
+                    }
+                    Visit { cfg: Some(cfg_hash(&r)), nontrivial: !cb.errs.is_empty() || cb.toks.len() > 2 }
+                }
+            }
+        },
+    );
+    report.absorb(pairs_lit);
     // 3. corpus split points: A = prefix up to a closed boundary, B = the rest
     let corpus = spaces::load_corpus(&cfg.corpus_dir);
     let mut splits: Vec<(usize, usize)> = Vec::new();
@@ -1206,7 +1378,7 @@ fn c15_run(cfg: &Config) -> PropRun {
     PropRun {
         report,
         rule: format!(
-            "pairs (A, B): A = every closed prefix among all words of <= {n} atoms of a {}-atom alphabet plus all generated programs of depth <= 2, B = every word of <= {m} atoms (thorough: plus every word of <= 2 atoms of S9); plus every closed split point of every corpus file; non-trivial = B produces more than one token or an error; witness format: A<US>B",
+            "pairs (A, B): A = every closed prefix among all words of <= {n} atoms of a {}-atom alphabet plus all generated programs of depth <= 2, B = every word of <= {m} atoms (thorough: plus every word of <= 2 atoms of S9); plus every closed split point of every corpus file; plus every prefix that is closed in the literal sense of the property only (initial configuration, ends in a statement-level comment, last default-channel token not a ';': among the words of <= {n} atoms, the state-carrying prefixes and 14 error bodies x 7 statement closers) with every continuation whose first token does not look behind (not a macro statement keyword, label, call or in-stream data); non-trivial = B produces more than one token or an error; witness format: A<US>B",
             C15_ATOMS.len()
         ),
         oracle: "lex(A.B) == lex(A) without EOF ++ shift(lex(B)) on tokens, payloads, literal buffer, errors, lines".into(),
@@ -1244,10 +1416,48 @@ pub fn run_property(prop: &'static str, cfg: &Config) -> PropRun {
                 },
                 cfg_of,
             );
+            if cfg.only_spaces.is_empty() {
+                // first characters that share leading bytes with the BOM (EF BB BF), its
+                // neighbours in every UTF-8 length class, and the fold-alike keyword spellings
+                let mut firsts: Vec<String> = Vec::new();
+                for c in [
+                    '\u{fefe}', '\u{ff00}', '\u{fec0}', '\u{feff}', '\u{fffd}', '\u{f000}', '\u{ff41}', '\u{ff05}', '\u{e000}', '\u{efff}', '\u{ffe6}',
+                    '\u{10000}', '\u{ef}', '\u{bb}', '\u{bf}', '\u{7ff}', '\u{800}', '\u{fb01}', '\u{fe00}', '\u{2060}', '\u{200b}', '\u{fffe}',
+                ] {
+                    for tail in ["", "a", ";", " x=1;", "\n", "%let a=1;", "\u{feff}", "'s'", "\"&v\"", "/*c*/", "1"] {
+                        if c != '\u{feff}' {
+                            firsts.push(format!("{c}{tail}"));
+                        }
+                        firsts.push(format!("a{c}{tail}"));
+                        firsts.push(format!("\n{c}{tail}"));
+                    }
+                }
+                firsts.extend(spaces::fold_alike_words().into_iter().map(|(h, w)| h.replacen("{}", &w, 1)));
+                report.absorb(ex.run_list(
+                    "BOM look-alike first characters x tails, fold-alike spellings",
+                    firsts.len() as u64,
+                    |i, buf| buf.push_str(&firsts[i as usize]),
+                    |local, input, _| {
+                        local.lexer_runs += 2;
+                        match c17_check(input) {
+                            None => {
+                                local.unobservable += 1;
+                                Visit { cfg: None, nontrivial: false }
+                            }
+                            Some(sigs) => {
+                                for s in sigs {
+                                    local.finding(format!("C17 {s}"), input);
+                                }
+                                Visit { cfg: None, nontrivial: true }
+                            }
+                        }
+                    },
+                ));
+            }
             report.distinct_nontrivial = ex.distinct_nontrivial.load(std::sync::atomic::Ordering::Relaxed);
             PropRun {
                 report,
-                rule: "every word s of <= N atoms not starting with U+FEFF, lexed with and without a BOM prefix; non-trivial = s non-empty".into(),
+                rule: "every word s of <= N atoms not starting with U+FEFF, lexed with and without a BOM prefix; first characters that share UTF-8 leading bytes with the BOM; non-trivial = s non-empty".into(),
                 oracle: "lex(BOM.s) == lex(s) with byte offsets +3, char offsets +1, same lines/columns/payloads/errors".into(),
             }
         }
